@@ -21,8 +21,10 @@ RULE = ('(a) every statement kind of the verification grammar (SELECT, '
         'else UNKNOWN. distinct_nontrivial = distinct (leading word, casing '
         'class, prefix class, continuation) combinations')
 ASSUMPTIONS = [
-    'which words are DML/DDL is read from the keyword dictionaries and the '
-    'dedicated CREATE rule at run time',
+    'which words are DML/DDL: a reference list fixed in the check (SELECT, '
+    'INSERT, DELETE, UPDATE, UPSERT, REPLACE, MERGE, COMMIT, START, ROLLBACK, '
+    'DROP, CREATE, ALTER, TRUNCATE) plus whatever else the keyword tables '
+    'type DML/DDL at run time',
     'labelled class D18: a leading keyword written directly before ( or '
     'before optional whitespace and a dot is lexed as a name by design of '
     'the lexer, get_type() answers UNKNOWN',
@@ -40,6 +42,15 @@ CONTS = [' 1', ' * from t', '\n x', ' a.b', ';', '', ' /*c*/ x', ' x;',
          '\t1', ' "q"', " 'str'", ' x (1)', '\n-- c\nx', ' t set a = 1',
          ' 1 union select 2', ' from t where a = 1']
 D18_CONTS = ['(1)', ' .5', '.5', '(select 1)', ' . x', '.x']
+
+
+# Words that are DML/DDL statement keywords in the keyword tables of the
+# tree this check was written against. They are part of the oracle (a table
+# change that re-types one of them changes get_type() for users); words added
+# to the tables later are picked up from the tables at run time.
+REFERENCE_DML = ['SELECT', 'INSERT', 'DELETE', 'UPDATE', 'UPSERT', 'REPLACE',
+                 'MERGE', 'COMMIT', 'START', 'ROLLBACK']
+REFERENCE_DDL = ['DROP', 'CREATE', 'ALTER', 'TRUNCATE']
 
 
 def dml_ddl_words():
@@ -136,7 +147,7 @@ def grammar_case(ctx, rng, gen):
     st = gen.statement()
     layout = grammar.Layout(
         rng, ws=rng.choice(['single', 'mixed']),
-        comments=0,
+        comments=rng.choice([0, 0, 0.1, 0.25]),
         kwcase=rng.choice(['upper', 'lower', 'mixed']),
         inner=rng.choice(['single', 'mixed']))
     out = []
@@ -157,10 +168,13 @@ def shard(ctx):
     rng = ctx.rng
     table = dml_ddl_words()
     words = {
-        'dmlddl': sorted(w for w, tt in table.items()
-                         if tt in (T.Keyword.DML, T.Keyword.DDL)),
+        'dmlddl': sorted(set(w for w, tt in table.items()
+                             if tt in (T.Keyword.DML, T.Keyword.DDL))
+                         | set(REFERENCE_DML) | set(REFERENCE_DDL)),
         'other': sorted(w for w, tt in table.items()
-                        if tt not in (T.Keyword.DML, T.Keyword.DDL))[::7],
+                        if tt not in (T.Keyword.DML, T.Keyword.DDL)
+                        and w not in REFERENCE_DML
+                        and w not in REFERENCE_DDL)[::7],
     }
     if ctx.shard == 0:
         ctx.rec.note('DML/DDL words: %r' % words['dmlddl'])
